@@ -112,6 +112,19 @@ def body_parse(op, lexer, parser):
     return canon_ast(node), node
 
 
+def body_parse_eager(op, lexer, parser):
+    """Tokenising and parsing decoupled, as a caller that validates a batch does: the
+    whole token list first, possibly another tokenisation in between, then the parse."""
+    toks = list(lexer.tokenize(op["text"]))
+    if op.get("other") is not None:
+        try:
+            list(lexer.tokenize(op["other"]))
+        except Exception:
+            pass
+    node = parser.parse(iter(toks))
+    return canon_ast(node), node
+
+
 def body_tokenize_all(op, lexer, parser):
     return ("ok", tuple(canon_token(t) for t in lexer.tokenize(op["text"]))), None
 
@@ -146,6 +159,8 @@ def run_body(op, lexer, parser, keep):
     k = op["kind"]
     if k == "parse":
         return body_parse(op, lexer, parser)
+    if k == "parse_eager":
+        return body_parse_eager(op, lexer, parser)
     if k == "tokenize_all":
         return body_tokenize_all(op, lexer, parser)
     if k == "tokenize_partial":
@@ -167,6 +182,8 @@ def op_request(op):
         return ("shorthand", k, op["text"])
     if k == "parse":
         return ("parse", op["text"])
+    if k == "parse_eager":
+        return ("parse_eager", op["text"])
     if k == "tokenize_all":
         return ("tokens", op["text"])
     if k == "tokenize_partial":
@@ -184,6 +201,9 @@ def reference(req):
     try:
         if kind == "parse":
             return canon_ast(g.ODataParser().parse(g.ODataLexer().tokenize(req[1])))
+        if kind == "parse_eager":
+            toks = list(g.ODataLexer().tokenize(req[1]))
+            return canon_ast(g.ODataParser().parse(iter(toks)))
         if kind == "tokens":
             return ("ok", tuple(canon_token(t) for t in g.ODataLexer().tokenize(req[1])))
         if kind == "partial":
@@ -345,7 +365,7 @@ class DryCache:
     @staticmethod
     def _req(op, opcode):
         import json
-        core = {k: op[k] for k in ("kind", "text", "k", "aliases") if k in op}
+        core = {k: op[k] for k in ("kind", "text", "k", "aliases", "other") if k in op}
         return ("dry", json.dumps(core, sort_keys=True), bool(opcode))
 
     def prefetch(self, ops, opcode):
@@ -625,8 +645,8 @@ class Engine:
                 elif last[1] == "rewriter-abort":
                     st.probes["rewriter_aborted_then_instances_reused"] += 1
         else:
-            lexer = g.ODataLexer() if kind in ("parse", "tokenize_all", "tokenize_partial",
-                                               "rewriter") else None
+            lexer = g.ODataLexer() if kind in ("parse", "parse_eager", "tokenize_all",
+                                               "tokenize_partial", "rewriter") else None
         if pj >= 0:
             st.par_holder[pj] = cid
             parser = st.parsers[pj]
@@ -636,7 +656,7 @@ class Engine:
             if last is not None and last[1] == "abort" and last[0] != cid:
                 st.probes["instance_handover_after_abort"] += 1
         else:
-            parser = g.ODataParser() if kind in ("parse", "rewriter") else None
+            parser = g.ODataParser() if kind in ("parse", "parse_eager", "rewriter") else None
 
         dry_n, _ = self.dry.get(op, self.opcode)
         keep = []
@@ -912,8 +932,10 @@ def gen_plan(seed, run, pool, dry, shorthand=False, max_clients=4, max_ops=5):
             op = {"id": "c%do%d" % (c, o)}
             if shorthand and r < 0.18:
                 op["kind"] = rng.choice(["sa_core", "sa_orm", "django"])
-            elif r < 0.72:
+            elif r < 0.66:
                 op["kind"] = "parse"
+            elif r < 0.72:
+                op["kind"] = "parse_eager"
             elif r < 0.80:
                 op["kind"] = "tokenize_partial"
             elif r < 0.85:
@@ -936,7 +958,9 @@ def gen_plan(seed, run, pool, dry, shorthand=False, max_clients=4, max_ops=5):
                 used_texts.append(op["text"])
             if op["kind"] == "tokenize_partial":
                 op["k"] = rng.randint(1, 6)
-            if op["kind"] in ("parse", "tokenize_partial", "tokenize_all", "rewriter"):
+            if op["kind"] == "parse_eager" and rng.random() < 0.7:
+                op["other"] = rng.choice(pool["valid"] + pool["bad"])
+            if op["kind"] in ("parse", "parse_eager", "tokenize_partial", "tokenize_all", "rewriter"):
                 op["lexer"] = rng.randrange(nl) if rng.random() < 0.85 else -1
                 op["parser"] = rng.randrange(np_) if rng.random() < 0.8 else -1
             op["linger"] = rng.random() < 0.45
@@ -1049,7 +1073,7 @@ def shrink_candidates(plan):
                     p = copy.deepcopy(plan)
                     p["clients"][ci]["ops"][oi][key] = -1
                     yield p
-            if op["kind"] in ("rewriter", "tokenize_all"):
+            if op["kind"] in ("rewriter", "tokenize_all", "parse_eager"):
                 p = copy.deepcopy(plan)
                 q = p["clients"][ci]["ops"][oi]
                 q["kind"] = "parse"
